@@ -1091,7 +1091,13 @@ void destruct_object (object_t * ob) {
         }
 
       if (otmp == ob->contains) /* not moved elsewhere ... see move_or_destruct() apply */
-        destruct_object (otmp);
+        {
+          destruct_object (otmp);
+          /* that has run move_or_destruct() in what otmp contained: as above, we could be
+           * dested by this. Going on would unlink us from every list a second time. */
+          if (ob->flags & O_DESTRUCTED)
+            return;
+        }
     }
 
 #ifdef OLD_ED
